@@ -786,13 +786,17 @@ def check_case(case, report, note=None):
             return lsnap(root, text=True)
         return lsnap(copy, text=writable)
 
-    cache = {"orig": state("orig"), "copy": state("copy")}
+    # state of each tree as of its last own edit; computed lazily, right
+    # before the next edit of the *other* tree needs it as "before"
+    cache = {"orig": None, "copy": None}
     edits_ok = 0
     # current name -> name at copy time, per side (for the classifiers)
     alias = {"orig": {}, "copy": {}}
     for num, (side, kind, pa, pb) in enumerate(case["edits"]):
         tree = copy if side == "copy" else orig
         other = "orig" if side == "copy" else "copy"
+        if cache[other] is None:
+            cache[other] = state(other)
         status, info = apply_edit(tree, num, kind, pa, pb)
         note("label", f"edit:{kind}:{status}")
         if status == "none":
@@ -829,10 +833,8 @@ def check_case(case, report, note=None):
                  f"[{status}] changed the {what} - {where}",
                  {"failed_edit": info})
             cache[other] = after
-        cache[side] = state(side)
-    note("label", "copy_text_compared" if writable and isinstance(
-        cache["copy"]["text"], str) and not cache["copy"]["text"].startswith(
-            "<") else "copy_snap_only")
+        cache[side] = None
+    note("label", "copy_text_compared" if writable else "copy_snap_only")
     nontrivial = feat["local_symbol_referenced"] and edits_ok >= 1
     return {"nontrivial": nontrivial, "edits_ok": edits_ok, "feat": feat}
 
